@@ -54,21 +54,36 @@ SUMMARY = {
  "C08-r3": "SecretKey::combine rejects exactly 255 shares",
  "C09-r3": "stale 'verified' flag in a core_verify cache: a failed tuple is accepted when asked again",
  "C10-r3": "G2Impl compute_y truncates the transcript: the timestamp is not bound",
+ "C11-r3": "SignCryptDecryptionKey::decrypt maps the MessageAugmentation label to the Basic tag",
+ "C12-r3": "create_decryption_share rejects identifier 255 (half-open range)",
+ "C13-r3": "unseal returns the extended payload for messages >= 31 bytes (appended bytes come back)",
+ "C14-r3": "two-share fast path in ElGamalDecryptionKey::from_shares drops the sign for descending identifiers",
+ "C15-r3": "Display of SignatureSchemes changed: JSON MessageAugmentation comes back as ProofOfPossession",
+ "C16-r3": "ProofCommitmentChallenge byte importers reduce mod r after the raw zero check: r and 2r import as zero",
+ "C17-r3": "fixed 255-slot combiner: Signature::from_shares panics on 256 shares",
+ "C18-r3": "ElGamal proof transcript always appends the default generator",
+ "C19-r3": "scalar_from_le_bytes via from_repr_vartime: strict in blst, lenient in the pure-Rust backend",
+ "C20-r3": "seal_scalar_with_proof takes the proof nonce from the caller-supplied blinder",
 }
 
-rows = []
-for sid in sorted(os.listdir(os.path.join(HERE, "seeded"))):
-    m = os.path.join(HERE, "seeded", sid, "meta.json")
-    if not os.path.exists(m):
-        continue
-    d = json.load(open(m))
-    r = d["checks_run_against_it"]
-    own = d["breaks_property"]
-    fired = sorted(r["fired"])
-    others = [f for f in fired if f != own]
-    inc = sorted(r["inconclusive"])
-    rows.append((sid, SUMMARY.get(sid, ""), "yes" if own in fired else "**NO**", ", ".join(others) or "-", ", ".join(inc) or "-"))
-print("| seeded change | what it does | caught by its own check (quick tier) | also fired | inconclusive |")
-print("|---|---|---|---|---|")
-for r in rows:
-    print("| %s | %s | %s | %s | %s |" % r)
+def main():
+  rows = []
+  for sid in sorted(os.listdir(os.path.join(HERE, "seeded"))):
+      m = os.path.join(HERE, "seeded", sid, "meta.json")
+      if not os.path.exists(m):
+          continue
+      d = json.load(open(m))
+      r = d["checks_run_against_it"]
+      own = d["breaks_property"]
+      fired = sorted(r["fired"])
+      others = [f for f in fired if f != own]
+      inc = sorted(r["inconclusive"])
+      rows.append((sid, SUMMARY.get(sid, ""), "yes" if own in fired else "**NO**", ", ".join(others) or "-", ", ".join(inc) or "-"))
+  print("| seeded change | what it does | caught by its own check (quick tier) | also fired | inconclusive |")
+  print("|---|---|---|---|---|")
+  for r in rows:
+      print("| %s | %s | %s | %s | %s |" % r)
+
+
+if __name__ == "__main__":
+    main()
